@@ -1,4 +1,5 @@
 import LinfaSpec.Proofs.Logistic
+import LinfaSpec.Proofs.LogisticReal
 
 /-!
 # C12 — logistic regression and Tweedie GLM: coding, probabilities, gradients
@@ -143,5 +144,148 @@ example : (onehotRow (α := Int) (classesOf [3, 1, 3]) 3).length = (classesOf [3
   (onehot_row [3, 1, 3] 3 (by decide)).1
 
 end Multi
+
+/-! ## scalar laws (over `ℝ`; `exp`/`ln` are `Real.exp`/`Real.log`) -/
+
+section Scalar
+
+theorem logistic_eq (x : ℝ) : logistic x = 1 / (1 + Real.exp (-x)) := rfl
+
+/-- **`logistic` maps into the open unit interval** -/
+theorem logistic_range (x : ℝ) : 0 < logistic x ∧ logistic x < 1 := by
+  rw [logistic_eq]
+  have h : 0 < Real.exp (-x) := Real.exp_pos _
+  constructor
+  · positivity
+  · rw [div_lt_one (by linarith)]
+    linarith
+
+/-- **both branches of `log_logistic` compute `ln (logistic x)`** -/
+theorem log_logistic_branches (x : ℝ) : logLogistic x = Real.log (logistic x) := by
+  rw [logistic_eq, one_div, Real.log_inv]
+  unfold logLogistic
+  split_ifs with h
+  · rfl
+  · show x - Real.log (1 + Real.exp x) = -Real.log (1 + Real.exp (-x))
+    have h1 : 1 + Real.exp (-x) = (1 + Real.exp x) / Real.exp x := by
+      rw [Real.exp_neg]; field_simp; ring
+    rw [h1, Real.log_div (by positivity) (by positivity), Real.log_exp]
+    ring
+
+example : (0 : ℝ) < logistic 1000 ∧ logistic (-1000 : ℝ) < 1 := ⟨(logistic_range _).1, (logistic_range _).2⟩
+
+/-- shape of `softmax_inplace` on a non-empty row -/
+theorem softmax_cons (a : ℝ) (as : List ℝ) :
+    softmax (a :: as) = (a :: as).map (fun n => Real.exp (n - as.foldl maxS a) /
+      ((a :: as).map fun n => Real.exp (n - as.foldl maxS a)).sum) := by
+  simp only [softmax, maxList, sumS_eq_sum, List.map_map]
+  rfl
+
+theorem softmax_denominator_pos (a : ℝ) (as : List ℝ) (m : ℝ) :
+    0 < ((a :: as).map fun n => Real.exp (n - m)).sum := by
+  simp only [List.map_cons, List.sum_cons]
+  have h1 : 0 < Real.exp (a - m) := Real.exp_pos _
+  have h2 : 0 ≤ (as.map fun n => Real.exp (n - m)).sum := by
+    apply List.sum_nonneg
+    intro x hx
+    obtain ⟨n, -, rfl⟩ := List.mem_map.mp hx
+    exact (Real.exp_pos _).le
+  linarith
+
+/-- **softmax entries are non-negative** (indeed positive) -/
+theorem softmax_nonneg (v : List ℝ) : ∀ p ∈ softmax v, 0 ≤ p := by
+  cases v with
+  | nil => simp [softmax, maxList]
+  | cons a as =>
+    intro p hp
+    rw [softmax_cons] at hp
+    obtain ⟨n, -, rfl⟩ := List.mem_map.mp hp
+    exact div_nonneg (Real.exp_pos _).le (softmax_denominator_pos a as _).le
+
+/-- **softmax rows sum to one** -/
+theorem softmax_sum_one (v : List ℝ) (hv : v ≠ []) : (softmax v).sum = 1 := by
+  cases v with
+  | nil => exact absurd rfl hv
+  | cons a as =>
+    rw [softmax_cons]
+    have hpos := softmax_denominator_pos a as (as.foldl maxS a)
+    have : ∀ (l : List ℝ) (s : ℝ), (l.map fun n => Real.exp (n - as.foldl maxS a) / s).sum =
+        (l.map fun n => Real.exp (n - as.foldl maxS a)).sum / s := by
+      intro l s
+      induction l with
+      | nil => simp
+      | cons b bs ih => simp only [List.map_cons, List.sum_cons, ih]; ring
+    rw [this]
+    exact div_self (ne_of_gt hpos)
+
+/-- hence every softmax entry is at most one -/
+theorem softmax_le_one (v : List ℝ) : ∀ p ∈ softmax v, p ≤ 1 := by
+  intro p hp
+  have hv : v ≠ [] := by
+    rintro rfl
+    simp [softmax, maxList] at hp
+  have hs := softmax_sum_one v hv
+  have := List.single_le_sum (softmax_nonneg v) p hp
+  linarith
+
+/-- **softmax is invariant under a common shift of the scores** -/
+theorem softmax_shift_invariant (v : List ℝ) (c : ℝ) : softmax (v.map (· + c)) = softmax v := by
+  cases v with
+  | nil => rfl
+  | cons a as =>
+    rw [List.map_cons, softmax_cons, softmax_cons, foldl_maxS_shift]
+    simp only [List.map_cons, List.map_map, Function.comp_def, add_sub_add_right_eq_sub]
+
+/-- softmax is a strictly increasing function applied to every score -/
+theorem softmax_eq_map_strictMono (a : ℝ) (as : List ℝ) :
+    ∃ f : ℝ → ℝ, StrictMono f ∧ softmax (a :: as) = (a :: as).map f := by
+  refine ⟨fun n => Real.exp (n - as.foldl maxS a) /
+      ((a :: as).map fun n => Real.exp (n - as.foldl maxS a)).sum, ?_, softmax_cons a as⟩
+  intro x y hxy
+  have hpos := softmax_denominator_pos a as (as.foldl maxS a)
+  exact div_lt_div_of_pos_right (Real.exp_lt_exp.mpr (by linarith)) hpos
+
+/-- **the arg-max of the un-normalised scores (what `predict` uses) is the arg-max of the
+probabilities (what `predict_probabilities` reports)** -/
+theorem argmax_scores_eq_argmax_softmax (v : List ℝ) : argmax (softmax v) = argmax v := by
+  cases v with
+  | nil => rfl
+  | cons a as =>
+    obtain ⟨f, hf, he⟩ := softmax_eq_map_strictMono a as
+    rw [he]
+    exact argmax_map f hf (a :: as)
+
+/-- so the multinomial prediction is the class with the largest reported probability -/
+theorem predict_multi_matches_probabilities {C} [Inhabited C] (k : Nat) (x : List (List ℝ))
+    (params : List (List ℝ)) (b : List ℝ) (classes : List C) :
+    predictMulti k x params b classes =
+      (predictProbaMulti k x params b).map fun p => classes.getD (argmax p) default := by
+  simp only [predictMulti, predictProbaMulti, List.map_map, Function.comp_def,
+    argmax_scores_eq_argmax_softmax]
+
+/-- **the binary prediction is the positive class exactly when the reported probability reaches
+the threshold** -/
+theorem predict_matches_threshold {C} (x : List (List ℝ)) (params : List ℝ) (b thr : ℝ)
+    (pos neg : C) (hne : pos ≠ neg) (i : Nat) (hi : i < x.length) :
+    ∃ p c, (predictProba x params b)[i]? = some p ∧ (predictBinary x params b thr pos neg)[i]? = some c ∧
+      0 < p ∧ p < 1 ∧ (c = pos ↔ thr ≤ p) ∧ (c = neg ↔ p < thr) := by
+  have hlen : i < (predictProba x params b).length := by simp [predictProba, linPred, hi]
+  refine ⟨(predictProba x params b)[i], if thr ≤ (predictProba x params b)[i] then pos else neg, by simp [hlen], ?_, ?_⟩
+  · simp [predictBinary, hlen]
+  · have hp : (predictProba x params b)[i] ∈ predictProba x params b := List.getElem_mem hlen
+    obtain ⟨z, -, hz⟩ := List.mem_map.mp hp
+    rw [← hz]
+    refine ⟨(logistic_range z).1, (logistic_range z).2, ?_, ?_⟩
+    · split_ifs with h
+      · simp [h]
+      · simp [h, hne.symm]
+    · split_ifs with h
+      · simp [hne, not_lt.mpr h]
+      · simp [not_le.mp h]
+
+example : softmax ([1, 2, 3] : List ℝ) ≠ [] ∧ (softmax ([1, 2, 3] : List ℝ)).sum = 1 :=
+  ⟨by rw [softmax_cons]; simp, softmax_sum_one _ (by simp)⟩
+
+end Scalar
 
 end LinfaSpec.Props.C12
